@@ -9,7 +9,7 @@ CXX     := g++
 COMMON  := -std=c++17 -g -fno-omit-frame-pointer -pthread \
            -flifetime-dse=1 -fno-strict-overflow -fno-delete-null-pointer-checks -fwrapv -mrtm \
            -I$(REPO)/include -I$(REPO)/src -Isim -Iharness \
-           -DONETBB_VERIF_SIM=1 -DONETBB_VERIF_MIN_TASK_POOL=4 -D__TBB_RESUMABLE_TASKS_USE_THREADS=0 \
+           -DONETBB_VERIF_SIM=1 -DONETBB_VERIF_MIN_TASK_POOL=4 -DONETBB_VERIF_BACKREF_LEAF=8 -D__TBB_RESUMABLE_TASKS_USE_THREADS=0 \
            -Wno-deprecated-declarations
 ifeq ($(FLAVOUR),asan)
 SAN     := -fsanitize=address,undefined -fno-sanitize-recover=all -fno-sanitize=vptr
